@@ -15,6 +15,8 @@
 //   g         MemStore::updateAnchored() on the oldest kept entry that is still attached (reads what was appended meanwhile)
 //   d         drop the oldest kept entry (disconnect if attached)
 //   E<j>      MemStore::evictIfFound(key j)
+//   U         MemStore::updateHeaders() on the oldest kept entry that is completely loaded and whose version is known: the reply gets one
+//             more header field (as after a 304), the shared copy gets a fresh header prefix spliced onto the old body
 #include "squid.h"
 #include "HttpReply.h"
 #include "ipc/mem/Page.h"
@@ -71,6 +73,12 @@ public:
             keys_[j][0] = 0x5151515100000000ULL + static_cast<uint64_t>(j + 1) * 977;
             keys_[j][1] = 0x1919000000000000ULL + static_cast<uint64_t>(j) * 3 + 1; // neighbouring anchor positions, collisions on tiny maps
         }
+        // cases that update headers go through StoreMap's update path, whose known defects (DESIGN.md 8.3, C55) get their own class prefix
+        bool updates = false;
+        for (auto &t : spec.tasks)
+            for (auto &op : t)
+                if (op[0] == 'U') updates = true;
+        s.setClassPrefix(updates ? "upd-" : "");
         ok_ = true;
         resetShared();
         vers_.clear();
@@ -103,6 +111,7 @@ public:
             case 'G': opGet(t, static_cast<int>(static_cast<unsigned>(atoi(op.c_str() + 1)) % static_cast<unsigned>(nKeys_))); break;
             case 'g': opMore(t); break;
             case 'd': opDrop(t); break;
+            case 'U': opUpdate(t); break;
             case 'E': opEvict(t, static_cast<int>(static_cast<unsigned>(atoi(op.c_str() + 1)) % static_cast<unsigned>(nKeys_))); break;
             default: break;
             }
@@ -152,15 +161,24 @@ public:
         // conservation: evict everything; every slice and every page must be free again
         for (int j = 0; j < nKeys_; ++j) store(0).evictIfFound(keyOf(j));
         Shared &sh = shared();
+        // A header update leaves its stale anchor marked for deletion and unlocked; the map reclaims it (up to the splicing point) when the
+        // position is needed again. Such anchors are garbage by design, not leaks: their slices and pages are counted as reclaimable.
+        unsigned lazySlices = 0;
         for (int f = 0; f < sh.limit; ++f) {
             const Ipc::StoreMapAnchor &a = sh.anchors->items[f];
-            if (!a.empty() || a.lock.readers || a.lock.writing)
+            if (a.lock.readers || a.lock.writing || (!a.empty() && !a.waitingToBeFreed))
                 { s_->viol("leftover-entry", "anchor %d is still in use (readers=%u writing=%d) after every worker finished and every key was evicted", f,
                            static_cast<unsigned>(a.lock.readers), static_cast<int>(a.lock.writing)); return; }
+            if (a.empty()) continue;
+            int guard = sh.limit + 1;
+            for (Ipc::StoreMapSliceId sid = a.start; sid >= 0 && guard-- > 0; sid = sh.slices->items[sid].next) {
+                ++lazySlices;
+                if (sid == a.splicingPoint) break;
+            }
         }
-        if (sh.space->size() != static_cast<unsigned>(sh.limit) || Ipc::Mem::PageLevel(Ipc::Mem::PageId::cachePage) != 0)
-            s_->viol("page-leak", "after evicting everything %u of %d slices are free and %zu cache pages are still in use", sh.space->size(), sh.limit,
-                     Ipc::Mem::PageLevel(Ipc::Mem::PageId::cachePage));
+        if (sh.space->size() + lazySlices != static_cast<unsigned>(sh.limit) || Ipc::Mem::PageLevel(Ipc::Mem::PageId::cachePage) != lazySlices)
+            s_->viol("page-leak", "after evicting everything %u of %d slices are free (+%u lazily reclaimable) and %zu cache pages are still in use", sh.space->size(), sh.limit,
+                     lazySlices, Ipc::Mem::PageLevel(Ipc::Mem::PageId::cachePage));
     }
 
     unsigned yieldsPerOp() const override { return 40; }
@@ -434,6 +452,42 @@ private:
             vsim::probe(ok ? "c19.update_anchored_ok" : "c19.update_anchored_failed");
             if (ok) judge(t, k, t0, "updateAnchored");
             else if (k.e->store_status == STORE_OK) s_->viol("failed-but-complete", "updateAnchored(key %d) failed but the entry is marked complete", k.key);
+            return;
+        }
+    }
+
+    /* ---- header update (what Store::Controller::updateOnNotModified() does for an IN_MEMORY entry after a 304) ---- */
+
+    void opUpdate(int t) {
+        Worker &w = w_[t];
+        for (auto &k : w.kept) {
+            StoreEntry *e = k.e;
+            if (e->store_status != STORE_OK || !k.ver || e->mem_obj->updatedReply()) continue;
+            const Version old = vers_[static_cast<size_t>(k.ver)];
+            const uint64_t hdrSz = e->mem().baseReply().hdr_sz;
+            if (!hdrSz || hdrSz > old.wire.size()) continue;
+            HttpReplyPointer fresh(e->mem().baseReply().clone());
+            char val[48];
+            snprintf(val, sizeof(val), "%0*d", 1 + static_cast<int>((tick_ * 7) % 30), static_cast<int>(vers_.size()));
+            fresh->header.putExt("X-Sim-Upd", val);
+            MemBuf *mb = fresh->pack();
+            Version nv;
+            nv.key = k.key;
+            nv.wire.assign(mb->content(), static_cast<size_t>(mb->contentSize()));
+            delete mb;
+            nv.wire.append(old.wire, hdrSz, std::string::npos);
+            nv.state = Complete;
+            nv.started = true; // may become visible to others at any instant from now on (or never, if the update is refused)
+            vers_.push_back(nv);
+            s_->trace("update of version %d for key %d: version %zu, %zu header bytes instead of %llu", k.ver, k.key, vers_.size() - 1,
+                      nv.wire.size() - (old.wire.size() - hdrSz), static_cast<unsigned long long>(hdrSz));
+            e->mem().updateReply(*fresh);
+            e->key = const_cast<cache_key *>(keyOf(k.key));
+            e->lock("shm_memstore update"); // StoreMapUpdate locks and unlocks the entry; without a holder of our own the unlock would destroy it
+            now();
+            store(t).updateHeaders(e);
+            e->key = nullptr;
+            vsim::probe("c19.header_updates");
             return;
         }
     }
